@@ -266,25 +266,34 @@ def check_stop(rep, tier, seed):
             cases2.append(["new " + f, "obs", "ttnew", "search - %d 0" % n])
             # also with a table that already knows the position (stop while walking cached results)
         cases2.append(["new " + f, "obs", "ttnew", "search %d -1 0" % depth, "search - 0 0", "search - 1 0"])
+        # … and a table in which the new root is an INNER node of an earlier search (bound entries, no exact one):
+        # search the parent, play a move, stop at once
+        for k in range(3 if tier == "quick" else 8):
+            cases2.append(["new " + f, "obs", "ttnew", "search %d -1 0" % (depth + 1), "pushbias %d" % r.randrange(1 << 30), "obs",
+                           "search - 0 0", "search - 1 0", "search - 2 0"])
     stats, kinds = Counter(), Counter()
     rust, lean = run_pair(rep, cases2)
     first = correspondence(rep, "C07", cases2, rust, lean, stats)
     q = []
     for ci, case in enumerate(cases2):
-        f4 = fen_before(case, rust[ci], len(case) - 1)
-        q.append("spec_status " + f4)
         for oi, op in enumerate(case):
             if op.startswith("search "):
+                f4 = fen_before(case, rust[ci], oi)          # the position THIS search was asked about
+                if f4 is None:
+                    continue
+                q.append("spec_status " + f4)
                 _, res = parse_search(rust[ci][oi])
                 if res.get("bestmove") not in (None, "none"):
                     q.append("spec_line %s %s" % (res["bestmove"], f4))
     ans = spec_queries(q)
     for ci, case in enumerate(cases2):
-        f4 = fen_before(case, rust[ci], len(case) - 1)
-        nlegal = int(ans["spec_status " + f4].split()[0])
         for oi, op in enumerate(case):
             if not op.startswith("search "):
                 continue
+            f4 = fen_before(case, rust[ci], oi)
+            if f4 is None:
+                continue
+            nlegal = int(ans["spec_status " + f4].split()[0])
             infos, res = parse_search(rust[ci][oi])
             stats["stop_points"] += 1
             n = op.split()[2]
@@ -491,7 +500,7 @@ def check_mates(rep, tier, seed):
     r = core.rng(seed, "C10")
     # candidate positions: composed mates + positions from walks; the independent solver decides
     cand = list(MATES)
-    prefix_cases = [walk_prefix(r, r.choice(roots.ALL), 30) for _ in range(150 if tier == "quick" else 3000)]
+    prefix_cases = [walk_prefix(r, r.choice(roots.ALL), 30) for _ in range(150 if tier == "quick" else 12000)]
     outs, _ = core.run_rust(prefix_cases)
     for case, o in zip(prefix_cases, outs):
         if o[-1] and "|" in o[-1][0]:
@@ -550,9 +559,14 @@ def load_mate2():
     for line in open(os.path.join(core.VERIF, "corpus", "C10_mate2.txt"), encoding="utf-8"):
         line = line.strip()
         if line and not line.startswith("#") and "|" in line:
-            f, k = line.split("|")
-            out.append((f.strip(), [m for m in k.strip().split(",") if m]))
+            parts = [x.strip() for x in line.split("|")]
+            out.append((parts[0], [m for m in parts[1].split(",") if m]))
+            if len(parts) > 2:          # moves known to keep a mate within three (answers of `spec_mate 3`, re-solved in the thorough tier)
+                KEEP3[parts[0]] = [m for m in parts[2].split(",") if m]
     return out
+
+
+KEEP3 = {}
 
 
 def spec_mate(n, fens, timeout=600):
@@ -607,6 +621,10 @@ def check_mate_in_two(rep, tier, r, stats, kinds):
                 rep.violation("impl-vs-spec", f"search went on after reporting a mate score: scores {scores} (limit {d}) @ {f}", "", replay_ops=case)
                 break
         if res["bestmove"] not in keep:
+            if tier == "quick" and res["bestmove"] in KEEP3.get(f, []):
+                stats["mate2_kept_but_lengthened"] += 1
+                kinds["mate2_lengthened"] += 1
+                continue
             suspects.append((f, d, res["bestmove"], case, scores))
     # every suspect is decided by the solver now: does the move keep the mate in two? a longer forced mate?
     if suspects:
@@ -651,7 +669,7 @@ def check_bounds(rep, tier, seed):
     import subprocess, time
     r = core.rng(seed, "C15")
     cases = []
-    ngames = 6 if tier == "quick" else 60
+    ngames = 6 if tier == "quick" else 240
     for i in range(ngames):
         root = [roots.START, roots.PERFT[1], roots.PERFT[5], "8/8/8/4k3/8/8/3QK3/8 w - - 0 1"][i % 4]
         ops = ["new " + root]
@@ -665,6 +683,12 @@ def check_bounds(rep, tier, seed):
                "n1n1k3/1P6/8/8/8/8/6p1/4K1N1 w - - 0 1", "1QQQQQQQ/Q6Q/Q6Q/Q3k2Q/Q6Q/Q6Q/Q6Q/QQQQQQQK w - -"]
     for f in special:
         cases.append(["new " + f, "obs", "moves u", "moves c", "ttnew", "search 2 -1 0", "search - 5000 0"])
+    # games given to the interface as text: `position startpos moves …` with knight shuffles up to and beyond the length guard
+    # (position_keeps_games_short: an accepted game is shorter than the guard, so the search keeps its stack room)
+    shuffle = ["g1f3", "g8f6", "f3g1", "f6g8"]
+    for n in (0, 5, 396, 397, 398, 399, 400, 401, 450, 511, 512, 515, 600):
+        ms = " ".join(shuffle[i % 4] for i in range(n))
+        cases.append([("position startpos moves " + ms).strip(), "obs", "ttnew", "search 2 -1 0", "moves c"])
     # everything the reader accepts from a mutation stream, followed by generation and a shallow search
     from . import textchk
     for f in roots.ALL[::7]:
@@ -683,6 +707,14 @@ def check_bounds(rep, tier, seed):
             if out is None:
                 rep.violation("impl-vs-spec", f"harness died during `{op[:60]}` @ {case[0][:80]}", "", replay_ops=case[: oi + 1])
                 break
+            if op.startswith("position ") and out and out[0].startswith("ok ") and oi + 1 < len(case) and rust[ci][oi + 1] \
+                    and "|" in rust[ci][oi + 1][0]:
+                glen = int(rust[ci][oi + 1][0].split("|")[-1])
+                stats["longest_game_accepted_by_position"] = max(stats["longest_game_accepted_by_position"], glen)
+                if glen >= 400:
+                    rep.violation("impl-vs-spec", f"`position` accepted a game of length {glen} (the state stack has 512 entries and the search needs room)",
+                                  "", replay_ops=[op[:200] + " …"])
+                    break
             if out and out[0].startswith("fault:"):
                 rep.violation("impl-vs-spec", f"checked build panicked: {out[0][:120]} on `{op[:60]}` @ {case[0][:80]}", "", replay_ops=case[: oi + 1])
                 break
@@ -751,10 +783,12 @@ def check_mate_histories(rep, tier, r, stats, kinds, keep_of):
     lines = []
     for line in open(os.path.join(core.VERIF, "corpus", "C10_history.txt"), encoding="utf-8"):
         if line.startswith("rep |"):
-            _, start, moves, reached = [x.strip() for x in line.split("|")]
-            lines.append((start, moves.split(), reached))
+            parts = [x.strip() for x in line.split("|")]
+            lines.append((parts[1], parts[2].split(), parts[3]))
+            if len(parts) > 4:
+                KEEP3.setdefault(parts[3], [m for m in parts[4].split(",") if m])
     if tier == "quick":
-        lines = r.sample(lines, 10)
+        lines = r.sample(lines, 40)
     cases = [["position fen %s moves %s" % (start, " ".join(ms)), "ttnew", "search 5 5000000 0"] for start, ms, _ in lines]
     rust, rc = core.run_rust(cases)
     suspects = []
@@ -770,10 +804,17 @@ def check_mate_histories(rep, tier, r, stats, kinds, keep_of):
         if res["bestmove"] not in keep:
             suspects.append((reached, ms, res["bestmove"], case, keep))
     if suspects:
-        fens = list(dict.fromkeys(f for f, *_ in suspects))[: (5 if tier == "quick" else 60)]
-        deep = spec_mate(3, fens)
+        # quick tier: the listed answers of `spec_mate 3` decide the cases that fall under the known finding (guard fired on the only
+        # keeping move); everything else, and everything in the thorough tier, is solved now
+        def guard_case(f, ms, keep):
+            return len(ms) >= 5 and ms[-1] == ms[-5] and keep == [ms[-4]]
+        need = [f for f, ms, mv, case, keep in suspects if tier != "quick" or f not in KEEP3 or not guard_case(f, ms, keep)]
+        fens = list(dict.fromkeys(need))[: (5 if tier == "quick" else 60)]
+        deep = spec_mate(3, fens) if fens else {}
         for f, ms, mv, case, keep in suspects:
             got = deep.get(f)
+            if got is None and tier == "quick" and f in KEEP3 and guard_case(f, ms, keep):
+                got = (2, keep, KEEP3[f])
             if not got or got[0] != 2:
                 continue
             if mv in got[1]:
